@@ -58,6 +58,7 @@ def evStr : Ev → String
 def siteStr : Site → String
   | .strncatNull => "strncat-null"
   | .uninitRead => "uninit-read"
+  | .textOverflow => "text-overflow"
   | .endStanzaNull => "end-stanza-null"
   | .textParentNull => "text-parent-null"
 
